@@ -442,6 +442,7 @@ def run(repo: Repo, ctx) -> None:
     _r7(repo, ctx)
     _r8(repo, ctx)
     _r9(repo, ctx)
+    _r10(repo, ctx)
 
 
 def _r5(repo: Repo, ctx) -> None:
@@ -855,3 +856,64 @@ def _r9(repo: Repo, ctx) -> None:
     if n < 1:
         raise AnalysisError('C14.R9: no tag with conditional element fields '
                             'on both sides found')
+
+
+
+def _r10(repo: Repo, ctx) -> None:
+    """C14.R10 a collection descriptor describes the collection's own element
+    types.  The describers of tuples, arrays, ranges and multiranges walk
+    `t.get_subtypes(schema)` and describe each element as it is; the id and
+    the element references of the descriptor then name the types the data
+    is encoded with.  A describer that swaps an element for another type
+    first (its base, its material type) announces a codec the data was not
+    produced for.  Sibling agreement: no describer re-binds the element
+    between the walk and the recursive description."""
+    ctx.floor('C14.R10', 4)
+    m = repo.module(MOD)
+    n = 0
+    for fn in m.tree.body:
+        if not isinstance(fn, ast.FunctionDef) or not \
+                fn.name.startswith('_describe_'):
+            continue
+        walks = []
+        for x in ast.walk(fn):
+            if isinstance(x, (ast.For, ast.comprehension)) and isinstance(
+                    x.target, ast.Name) and any(
+                    isinstance(c, ast.Call) and isinstance(
+                        c.func, ast.Attribute)
+                    and c.func.attr in ('get_subtypes', 'iter_subtypes')
+                    for c in ast.walk(x.iter)):
+                walks.append(x)
+        for w in walks:
+            var = w.target.id
+            scope = w if isinstance(w, ast.For) else fn
+            described = [c for c in ast.walk(fn) if isinstance(c, ast.Call)
+                         and (call_name(c) or '') == '_describe_type'
+                         and c.args and isinstance(c.args[0], ast.Name)
+                         and c.args[0].id == var]
+            if not described:
+                continue
+            n += 1
+            rebinds = [st for st in ast.walk(scope)
+                       if isinstance(st, (ast.Assign, ast.AugAssign,
+                                          ast.AnnAssign, ast.NamedExpr))
+                       and any(isinstance(t, ast.Name) and t.id == var
+                               and isinstance(t.ctx, ast.Store)
+                               and not any(t is cg.target for cg in
+                                           ast.walk(st) if isinstance(
+                                               cg, ast.comprehension))
+                               for t in ast.walk(st))]
+            ctx.ob('C14.R10', f'{fn.name}:element-described-as-declared',
+                   not rebinds,
+                   f'{fn.name} replaces an element type of the collection '
+                   f'(`{norm(rebinds[0])[:70] if rebinds else ""}`) before '
+                   f'describing it: the descriptor (and the id computed '
+                   f'from it) names another element type than the one the '
+                   f'values are encoded with; every other collection '
+                   f'describer describes the subtypes as they are',
+                   f'{m.rel()}:{(rebinds[0].lineno if rebinds else fn.lineno)}',
+                   sample=f'for {var} in t.get_subtypes(..): '
+                          f'_describe_type({var})')
+    if n < 4:
+        raise AnalysisError(f'C14.R10: only {n} collection describers that '
+                            f'walk get_subtypes were found')
